@@ -7,6 +7,7 @@ import U3.Lemmas.RespZstd
 import U3.Lemmas.RespGzip
 import U3.Lemmas.RespDeflate
 import U3.Lemmas.RespMulti
+import U3.Lemmas.RespChunked
 import U3.Lemmas.RespIter
 import U3.Lemmas.RespWitness
 /-!
@@ -366,6 +367,93 @@ example : Inv cfgGzipHello hRem HI CDGall
   · show CDGall (.one (.gzip (Gz.new gzipO))) (hRem h) (lit "hello")
     rw [hrem]
     exact GzG_of_gzOk gzipO _ _ _ rfl (by decide +kernel)
+
+/-- **`C12_raw_read_exact`, chunked framing**: the source hypotheses hold for `http.client`'s own
+chunk reader (`_read_chunked(amt)`, `_read1_chunked(n)`, `_get_chunk_left`, `_read_next_chunk_size`,
+`_read_and_discard_trailer`) on every well-framed chunked body (`CI`: chunked, not HEAD, the
+one-shot reference reader `refBody` accepts the bytes that are or will be there; `cRem` = what it
+returns), for every network segmentation and every position inside the body (at a size line,
+inside a chunk, before the CRLF that ends a chunk): `_raw_read(n)` = the next `min n |rest|` raw
+bytes — across any number of chunk boundaries —, `_raw_read()` = all of them,
+`_raw_read(n, read1=True)` = a non-empty prefix of at most `n` bytes within the current chunk; none
+raises; and the closing laws `stream` needs -/
+theorem C12_raw_read_exact_chunked {δ : Type} (cfg : Cfg δ) :
+    RawReadSpec (δ := δ) hSrc cfg cRem CI ∧ RawReadAllSpec (δ := δ) hSrc cfg cRem CI ∧
+    RawRead1Spec (δ := δ) hSrc cfg cRem CI ∧
+    ClosesN (δ := δ) hSrc cfg cRem CI ∧ ClosesAll (δ := δ) hSrc cfg CI ∧ ClosedNil hSrc cRem CI :=
+  ⟨hSrc_rawReadSpec_chunked cfg, hSrc_rawReadAllSpec_chunked cfg, hSrc_rawRead1Spec_chunked cfg,
+   hSrc_closesN_chunked cfg, hSrc_closesAll_chunked cfg, hSrc_closedNil_chunked⟩
+
+/-- **`C12_chunked_wellframed`**: what "well framed" covers and what the raw body then is — a
+response whose wire holds ANY chunk vector (non-empty chunks of any sizes), each size line in ANY
+spelling `http.client` accepts for that size (`SizeLineOk`: `int(line.split(b";")[0], 16)`, so hex in
+either case, leading zeros, surrounding blanks, with or without chunk extensions), any two bytes
+after each chunk, a last-chunk line, and anything after it (trailers, blank line, pipelined bytes)
+satisfies `CI`, and its raw body `cRem` is the concatenation of the chunk data.  The usual
+spellings `b"%x\r\n" % n` and `b"%x;" % n + ext + b"\r\n"` are size lines for `n`. -/
+theorem C12_chunked_wellframed (h : H) (f : Fp) (cs : List WChunk) (last after : Bytes)
+    (hh : h.head = false) (hc : h.chunked = true) (hcl : h.closed = false) (hf : h.fp = some f)
+    (hl : h.chunkLeft = none) (hcont : f.content = encChunks cs last after)
+    (hcs : ∀ c ∈ cs, c.ok) (hlast : SizeLineOk last 0) :
+    CI h none ∧ cRem h = (cs.map WChunk.data).flatten ∧
+    (∀ n, SizeLineOk (hexDigits n ++ crlf) n) ∧
+    (∀ n ext, LF ∉ ext → SizeLineOk (hexDigits n ++ 59 :: (ext ++ crlf)) n) := by
+  obtain ⟨h1, h2⟩ := CInv_of_encoded h f cs last after hh hc hcl hf hl hcont hcs hlast
+  exact ⟨⟨h1, rfl⟩, h2, sizeLineOk_hex, sizeLineOk_hex_ext⟩
+
+example : (⟨lit "5;x=y\r\n", lit "hello", crlf⟩ : WChunk).ok := by
+  refine ⟨⟨⟨lit "5;x=y\r", by decide, by decide⟩, by decide⟩, by decide, by decide⟩
+
+example : SizeLineOk (lit "0\r\n") 0 := ⟨⟨lit "0\r", by decide, by decide⟩, by decide⟩
+
+/-- **`C12_concat` for chunked `http.client` sources and urllib3's decoders**: on every well-framed
+chunked response (`Inv … cRem CI CDGall … payload`), for every network segmentation and every
+interleaving of `read()`, `read(0)`, `read(n)` (= `readinto(n)`), `read1()`, `read1(n)` with
+decoding on: no call raises, one piece per call, pieces ++ final `read()` = decoded payload -/
+theorem C12_concat_http_chunked_partial (cfg : Cfg CD) (dco : Option Bool) (hdc : dco.getD cfg.decodeDefault = true)
+    (calls : List RCall) (r : R H CD) (payload : Bytes)
+    (hinv : Inv cfg cRem CI CDGall r payload) (hfuel : (cRem r.fp).length + 1 < cfg.fuel) :
+    ∃ outs r' last r'', callSeq hSrc cdDec cfg dco calls r = (.ok outs, r') ∧ outs.length = calls.length ∧
+      read hSrc cdDec cfg r' none dco = (.ok last, r'') ∧ outs.flatten ++ last = payload :=
+  C12_concat_partial hSrc cdDec cfg (hSrc_rawReadSpec_chunked cfg) (hSrc_rawReadAllSpec_chunked cfg)
+    (hSrc_rawRead1Spec_chunked cfg) cdDec_streamLaw dco hdc calls r payload hinv hfuel
+
+/-- … and with decoding off: the pieces are the de-chunked raw body, whatever the `Content-Encoding` -/
+theorem C12_concat_raw_http_chunked_partial (cfg : Cfg CD) (dco : Option Bool) (hdc : dco.getD cfg.decodeDefault = false)
+    (calls : List RCall) (r : R H CD) (raw : Bytes) (hinv : RawInv cRem CI r raw) :
+    ∃ outs r' last r'', callSeq hSrc cdDec cfg dco calls r = (.ok outs, r') ∧ outs.length = calls.length ∧
+      read hSrc cdDec cfg r' none dco = (.ok last, r'') ∧ outs.flatten ++ last = raw :=
+  C12_concat_raw_partial hSrc cdDec cfg (hSrc_rawReadSpec_chunked cfg) (hSrc_rawReadAllSpec_chunked cfg)
+    (hSrc_rawRead1Spec_chunked cfg) dco hdc calls r raw hinv
+
+/-- non-vacuity: the chunked gzip response `wireChunkedGzipHello` (three chunks of 10 / 10 / 8
+bytes, one with a chunk extension, a trailer) satisfies `Inv` for segmentation 3 … -/
+example : Inv cfgGzipHello cRem CI CDGall
+    ({ fp := hBegin ⟨[], wireChunkedGzipHello, 3⟩ (some (lit "chunked")) none false 200 false,
+       lengthRemaining := none, conn := true } : R H CD) (lit "hello") := by
+  generalize hh : hBegin ⟨[], wireChunkedGzipHello, 3⟩ (some (lit "chunked")) none false 200 false = h
+  have hfacts : h.head = false ∧ h.chunked = true ∧ h.closed = false ∧ h.chunkLeft = none ∧
+      h.fp.map (·.content) = some chunkedGzipHello := by
+    subst hh; decide +kernel
+  obtain ⟨h1, h2, h3, h4, h5⟩ := hfacts
+  obtain ⟨f, hf, hc⟩ : ∃ f, h.fp = some f ∧ f.content = chunkedGzipHello := by
+    cases hf : h.fp with
+    | none => rw [hf] at h5; cases h5
+    | some f => rw [hf] at h5; exact ⟨f, rfl, by simpa using h5⟩
+  have href : refBody none chunkedGzipHello = some gzipHello := by decide +kernel
+  have hrem : cRem h = gzipHello := by simp [cRem, hf, h4, hc, href]
+  refine ⟨⟨⟨h1, h2, fun g hg => ⟨h3, ?_⟩⟩, rfl⟩, lit "hello", ?_, rfl⟩
+  · rw [hf] at hg; cases hg; rw [h4, hc, href]; rfl
+  · show CDGall (.one (.gzip (Gz.new gzipO))) (cRem h) (lit "hello")
+    rw [hrem]
+    exact GzG_of_gzOk gzipO _ _ _ rfl (by decide +kernel)
+
+/-- … on which the model computes what the theorems say: `read(2)`, `read1()`, `read(0)`, `read()` -/
+example : out (callSeq hSrc cdDec { cfgGzipHello with chunked := true } (some true)
+      [.read (some 2), .read1 none, .read (some 0), .read none]
+      ({ fp := hBegin ⟨[], wireChunkedGzipHello, 3⟩ (some (lit "chunked")) none false 200 false,
+         lengthRemaining := none, conn := true } : R H CD)) = some [lit "he", lit "l", [], lit "lo"] := by
+  decide +kernel
 
 /-! non-vacuity of the hypotheses of the theorems above: the `Content-Length: 20`,
 `Content-Encoding: zstd` response carrying two frames "a" + "a", any segmentation `seg` -/
